@@ -76,7 +76,10 @@ func (x *c02Run) afterRevocation(fl c02Flow, p *c02Tok, reported bool) {
 		for _, d := range ds {
 			d.Limbo = true
 		}
-		if x.waitRecordAbsent(p, 3*time.Second) {
+		if f := x.curFault; f != nil && f.fired.Load() > 0 {
+			// the injected fault hit the worker: it retries in 10-30 s; nothing to wait for now
+			x.r.Count("queued_tree_revocations_interrupted_by_the_fault", 1)
+		} else if x.waitRecordAbsent(p, x.settleBudget(2*time.Second)) {
 			x.killTree(p)
 			x.r.Count("queued_tree_revocations_observed_complete", 1)
 		} else {
@@ -134,8 +137,22 @@ func (x *c02Run) killTree(p *c02Tok) {
 	}
 }
 
+// settleBudget bounds the time one world spends waiting for workers (8 s in total); once it is
+// spent a queued revocation is looked at once and otherwise left undecided.
+func (x *c02Run) settleBudget(want time.Duration) time.Duration {
+	if left := 8*time.Second - x.waited; left < want {
+		if left < 0 {
+			return 0
+		}
+		return left
+	}
+	return want
+}
+
 func (x *c02Run) waitRecordAbsent(p *c02Tok, max time.Duration) bool {
-	deadline := time.Now().Add(max)
+	t0 := time.Now()
+	defer func() { x.waited += time.Since(t0) }()
+	deadline := t0.Add(max)
 	for {
 		if x.parentRecord(p) == "absent" {
 			return true
